@@ -132,6 +132,7 @@ struct Exec
     const Plan &plan;
     Ctx &ctx;
     World w;
+    Live live;
     int stepNo = -1;
 
     Exec(const Plan &p, Ctx &c)
@@ -1303,6 +1304,22 @@ struct Exec
             return false;
         }
         auto held = w.heldFlags();
+        if (live.analyser != nullptr || live.am != nullptr || live.importer != nullptr || live.generator != nullptr || live.validator != nullptr || live.annotator != nullptr) {
+            // Long-lived services keep strong references to what they were given (the importer's library its models, an
+            // analyser model the analysed model, its variables and components, an external variable its variable, every
+            // logger the items of its issues): with such a service around, an entity that is still alive is not required
+            // to have been destroyed.
+            bool any = false;
+            for (size_t i = 0; i < held.size() && i < obs.size(); ++i) {
+                if (obs[i].alive && !held[i]) {
+                    held[i] = true;
+                    any = true;
+                }
+            }
+            if (any) {
+                ctx.count("liveness_not_required_while_long_lived_services_hold_references");
+            }
+        }
         bool allRefusals = true;
         for (auto &o : outs) {
             allRefusals = allRefusals && diffSnap(w, before, o.s).empty() && o.s.size() == before.size();
@@ -1742,6 +1759,7 @@ struct Exec
             s.variant = st.arg(5);
             s.dropped = dropped;
             s.recv = w.ent(recvId);
+            s.live = &live;
             buildKit(s);
             kitBefore = kitDump(s);
             se.run(s);
@@ -1891,13 +1909,16 @@ Plan generate(Rng &rng, const Opts &opts, uint64_t runIndex)
         badKinds &= ~mN;
     }
     unsigned fams = unsigned(rng.below(15)) + 1; // families of containers in play
-    std::vector<size_t> cont, obj, svc;
+    bool liveServices = opts.f("live", rng.chance(1, 3) ? 1 : 0) != 0; // long-lived services fed with handles of the universe
+    std::vector<size_t> cont, obj, svc, liveSvc;
     for (size_t i = 0; i < t.entries.size(); ++i) {
         const Entry &e = t.entries[i];
         if (e.cat == C_CONT && ((fams >> e.fam) & 1u) != 0) {
             cont.push_back(i);
         } else if (e.cat == C_OBJ) {
             obj.push_back(i);
+        } else if (e.cat == C_SVC && e.name.compare(0, 5, "Live.") == 0) {
+            liveSvc.push_back(i);
         } else if (e.cat == C_SVC) {
             svc.push_back(i);
         }
@@ -1935,6 +1956,11 @@ Plan generate(Rng &rng, const Opts &opts, uint64_t runIndex)
             continue;
         }
         const std::vector<size_t> *pool = &cont;
+        if (liveServices && !liveSvc.empty() && r >= 70) {
+            const Entry &le = t.entries[rng.pick(liveSvc)];
+            p.steps.push_back(mk(le.name, {long(rng.below(8)), 0, 0, B_NULL, 0, long(rng.below(8))}));
+            continue;
+        }
         if (services && badargs && r < 24) {
             pool = &svc;
         } else if (objects && r < 50) {
